@@ -229,8 +229,8 @@ func (in *Interp) posOf(fr *Frame) string {
 }
 
 func shortFile(f string) string {
-	if i := strings.Index(f, "/repo/"); i >= 0 {
-		return f[i+6:]
+	if strings.HasPrefix(f, repoDir+"/") {
+		return f[len(repoDir)+1:]
 	}
 	if i := strings.LastIndex(f, "/pkg/mod/"); i >= 0 {
 		return f[i+9:]
